@@ -310,6 +310,9 @@ class Listener:
                     return
 
                 new_neighbor = copy.copy(ranged_neighbor[0])
+                # the copy is shallow: without a session of its own, the peer made for this connection
+                # rewrites the addresses of the range it comes from (and of every peer made from it)
+                new_neighbor.session = copy.copy(new_neighbor.session)
                 new_neighbor.range_size = 1
                 new_neighbor.ephemeral = True
                 new_neighbor.session.local_address = IP.from_string(connection.peer)
